@@ -146,5 +146,101 @@ __CPROVER_ensures(!BT_IS_CONN(s) ==> (XU_SERVER_FORWARDS(s) && xvu.bell_mods == 
 __CPROVER_ensures(xvu.foreign == __CPROVER_old(xvu.foreign))
 ;
 
+/* ================================================================================================================ */
+/* C08/C18: life cycle -- btls_server (bind ladder), btls_close, btls_cleanup; the REAL deinit/conn_deinit are inlined */
+/* ================================================================================================================ */
+#define XU_TYPE_OK(s) ((s)->type == xcm_socket_type_conn || (s)->type == xcm_socket_type_server)
+/* a context reference is held exactly when ssl_ctx is set (ctx_store_get_ctx counts in xv_ctx_refs, contracts/btls.h) */
+#define XU_CTX_HELD_OK(s) (BT(s)->ssl_ctx == NULL || (BT(s)->ssl_ctx == XV_CTX && xv_ctx_refs >= 1))
+#define XU_LIFE_GHOSTS (XVU_RANGE && XV_SSL_GHOST_RANGE && XV_OTHER_RANGE && BT_CONF_GHOST_RANGE)
+/* what deinit() touches outside the socket */
+#define XU_DEINIT_ASSIGNS xvu.low_st, xvu.low_destroys, xvu.low_leaks, xvu.bell_dels, xvu.foreign, xv_ssl_free_calls, xv_ssl_free_ssl, \
+                          xv_it_w_deinits, xv_slist_destroy_calls, xv_slist_destroyed, xv_ctx_refs
+#define XU_DEINIT_SOCK_ASSIGNS(s) BT(s)->cert, BT(s)->key, BT(s)->tc, BT(s)->crl, BT(s)->btcp_socket
+#define XU_SAME(f) ((f) == __CPROVER_old(f))
+#define XU_PLUS(f, n) ((f) == __CPROVER_old(f) + (n))
+/* the sub-socket is gone for good: destroyed once, nothing it held was lost with it, the socket no longer points to it */
+#define XU_LOW_GONE(s) (xvu.low_st == XVL_DESTROYED && XU_PLUS(xvu.low_destroys, 1) && XU_SAME(xvu.low_leaks) && XU_LOW(s) == NULL && XU_SAME(xvu.foreign))
+#define XU_CTX_RELEASED_IFF_HELD(s) (xv_ctx_refs == __CPROVER_old(xv_ctx_refs) - (BT(s)->ssl_ctx != NULL ? 1 : 0))
+#define XU_NAMES_RELEASED(s) (BT(s)->valid_peer_names != NULL ? (XU_PLUS(xv_slist_destroy_calls, 1) && xv_slist_destroyed == BT(s)->valid_peer_names) : XU_SAME(xv_slist_destroy_calls))
+#define XU_ITEM_RELEASED(s) (BT_W(s, type) == item_type_none && xv_it_w_deinits == __CPROVER_old(xv_it_w_deinits) + (BT_W_OLD(s, type) != item_type_none ? 1 : 0))
+#define XU_SSL_FREED_IFF_CONN(s) (BT_IS_CONN(s) ? (XU_PLUS(xv_ssl_free_calls, 1) && xv_ssl_free_ssl == BT(s)->conn.ssl) : XU_SAME(xv_ssl_free_calls))
+
+/* entry state of close/cleanup: any socket that went through init: a server (bound or not) or a connection in any state; its
+ * sub-socket owes a close.  xvu_null: the call is made with NULL (a no-op) */
+#define XU_END_REQ(s) (xvu_null ? (s) == NULL : \
+        (XU_SOCK(s) && BT_PROTO_FRESH(s) && BT_PROTO(s) && XU_TYPE_OK(s) && BT_ITEMS_OK(s) && BT_SEL_OK(s) && XU_CTX_HELD_OK(s) && XVL_OWES && \
+         (BT_IS_CONN(s) ==> (XU_CONN_OWNS(s) && BT_STATE(s) >= conn_state_initialized && BT_STATE(s) <= conn_state_closed))))
+
+static void btls_close(struct xcm_socket *s)
+__CPROVER_requires(XU_END_REQ(s) && XU_LIFE_GHOSTS)
+__CPROVER_assigns(xv_errno, xvu.shutdowns, xvu.shutdown_low_st, xvu.low_closes, XU_DEINIT_ASSIGNS)
+__CPROVER_assigns(s != NULL: XU_DEINIT_SOCK_ASSIGNS(s))
+/* PO[C08] btls_close.sub_socket_closed_once_then_destroyed: one close (no cleanup) of the btcp sub-socket while it owed one, then its destruction */
+__CPROVER_ensures(s != NULL ==> (XU_PLUS(xvu.low_closes, 1) && XU_SAME(xvu.low_cleanups) && XU_LOW_GONE(s)))
+/* PO[C08,C18] btls_close.context_released_iff_held: the TLS context reference goes back to the cache exactly once iff the socket holds one */
+__CPROVER_ensures(s != NULL ==> XU_CTX_RELEASED_IFF_HELD(s))
+/* PO[C08] btls_close.ssl_freed_iff_connection: the connection's own SSL is freed once; a server socket has none */
+__CPROVER_ensures(s != NULL ==> XU_SSL_FREED_IFF_CONN(s))
+/* PO[C08] btls_close.bell_deregistered_iff_connection: the owner closes: the connection's bell registration is deleted once (and not modified); a server has none */
+__CPROVER_ensures(s != NULL ==> (xvu.bell_dels == __CPROVER_old(xvu.bell_dels) + (BT_IS_CONN(s) ? 1 : 0) && XU_SAME(xvu.bell_mods)))
+/* PO[C08] btls_close.names_and_credentials_released: the name list is destroyed once iff there is one; every credential item is emptied (watched one: released once iff designated) */
+__CPROVER_ensures(s != NULL ==> (XU_NAMES_RELEASED(s) && XU_ITEM_RELEASED(s)))
+/* close_notify is sent on a ready connection only, once, on the socket's own SSL, BEFORE the sub-socket it travels through is closed */
+__CPROVER_ensures(s != NULL ==> ((BT_IS_CONN(s) && BT_STATE(s) == conn_state_ready) \
+        ? (XU_PLUS(xvu.shutdowns, 1) && (xvu.shutdown_low_st == XVL_INIT || xvu.shutdown_low_st == XVL_LIVE)) \
+        : (XU_SAME(xvu.shutdowns) && XU_SAME(xv_errno))))
+/* PO[C08] btls_close.null_is_a_no_op */
+__CPROVER_ensures(s == NULL ==> (XU_SAME(xvu.low_closes) && XU_SAME(xvu.low_destroys) && XU_SAME(xv_ctx_refs) && XU_SAME(xv_ssl_free_calls) && XU_SAME(xvu.bell_dels) && \
+                                 XU_SAME(xvu.shutdowns) && XU_SAME(xvu.foreign) && XU_SAME(xv_errno)))
+;
+
+static void btls_cleanup(struct xcm_socket *s)
+__CPROVER_requires(XU_END_REQ(s) && XU_LIFE_GHOSTS)
+__CPROVER_assigns(xvu.low_cleanups, XU_DEINIT_ASSIGNS)
+__CPROVER_assigns(s != NULL: XU_DEINIT_SOCK_ASSIGNS(s))
+/* PO[C08] btls_cleanup.sub_socket_cleaned_up_once_then_destroyed: one cleanup (NOT a close: the descriptor's epoll registrations and the connection belong to the parent) then its destruction */
+__CPROVER_ensures(s != NULL ==> (XU_PLUS(xvu.low_cleanups, 1) && XU_SAME(xvu.low_closes) && XU_LOW_GONE(s)))
+/* PO[C08] btls_cleanup.owner_and_peer_untouched: no close_notify to the peer, no change of the bell registrations (the epoll instance is shared with the owner), errno untouched */
+__CPROVER_ensures(XU_SAME(xvu.shutdowns) && XU_SAME(xvu.bell_dels) && XU_SAME(xvu.bell_mods) && XU_SAME(xv_errno))
+/* PO[C08,C18] btls_cleanup.context_released_iff_held: process-local: the child's reference to the cached context */
+__CPROVER_ensures(s != NULL ==> XU_CTX_RELEASED_IFF_HELD(s))
+/* PO[C08] btls_cleanup.ssl_freed_iff_connection: process-local memory */
+__CPROVER_ensures(s != NULL ==> XU_SSL_FREED_IFF_CONN(s))
+/* PO[C08] btls_cleanup.names_and_credentials_released */
+__CPROVER_ensures(s != NULL ==> (XU_NAMES_RELEASED(s) && XU_ITEM_RELEASED(s)))
+/* PO[C08] btls_cleanup.null_is_a_no_op */
+__CPROVER_ensures(s == NULL ==> (XU_SAME(xvu.low_cleanups) && XU_SAME(xvu.low_destroys) && XU_SAME(xv_ctx_refs) && XU_SAME(xv_ssl_free_calls) && XU_SAME(xvu.foreign)))
+;
+
+/* ---- btls_server: address, policy/credentials (finalize_tls_conf: its contract of unit btls), context, bind of the sub-socket */
+#define XU_SRV_ADDR_OK (xvu.addr_rv == 0)
+#define XU_SRV_CTX_TRIED (xv_ctx_get_calls != __CPROVER_old(xv_ctx_get_calls))
+#define XU_SRV_BIND_TRIED (xvu.low_servers != __CPROVER_old(xvu.low_servers))
+static int btls_server(struct xcm_socket *s, const char *local_addr)
+__CPROVER_requires(XU_SOCK(s) && __CPROVER_is_fresh(local_addr, 1) && s->type == xcm_socket_type_server && BT_ITEMS_OK(s) && BT_BOOLS_OK(s) && BT_SEL_OK(s) && \
+                   BT(s)->ssl_ctx == NULL && xvu.low_st == XVL_INIT && XU_LIFE_GHOSTS)
+__CPROVER_assigns(xv_errno, XV_ITEM_ASSIGNS, XV_ASP_ASSIGNS, XV_NS_ASSIGNS, xv_getenv_calls, xv_slist_destroy_calls, xv_slist_destroyed)
+__CPROVER_assigns(xv_ctx_get_calls, xv_ctx_refs, xv_ctx_cert, xv_ctx_key, xv_ctx_tc, xv_ctx_crl, xv_ctx_cert_type, xv_ctx_key_type, xv_ctx_tc_type, xv_ctx_crl_type)
+__CPROVER_assigns(xvu.addr_calls, xvu.addr_rv, xvu.addr_buf, xvu.addr_in, xvu.low_servers, xvu.low_server_rv, xvu.low_server_addr_ok, xvu.low_closes, XU_DEINIT_ASSIGNS)
+__CPROVER_assigns(XU_DEINIT_SOCK_ASSIGNS(s), BT(s)->valid_peer_names, BT(s)->ssl_ctx, BT(s)->server.created)
+__CPROVER_ensures(__CPROVER_return_value == 0 || (__CPROVER_return_value == -1 && xv_errno > 0))
+/* PO[C08] btls_server.failure_leaves_nothing: a failed bind, at whichever step, keeps no context reference, and the sub-socket is destroyed without anything it held being lost; nothing that belongs to a connection is touched */
+__CPROVER_ensures(__CPROVER_return_value == -1 ==> (XU_SAME(xv_ctx_refs) && XU_LOW_GONE(s) && XU_SAME(xvu.low_cleanups) && XU_SAME(xvu.bell_dels) && XU_SAME(xv_ssl_free_calls) && XU_ITEM_RELEASED(s)))
+/* PO[C08] btls_server.close_rule_of_xcm_tp_h: the sub-socket is closed exactly once if the failure came before its own server() call, and NOT closed after its own server() call failed (it has cleaned up itself) */
+__CPROVER_ensures(__CPROVER_return_value == -1 ==> xvu.low_closes == __CPROVER_old(xvu.low_closes) + (XU_SRV_BIND_TRIED ? 0 : 1))
+/* PO[C08,C18] btls_server.success_holds_exactly: a bound server holds its live sub-socket (neither closed nor destroyed) and ONE reference to the context made from its credentials */
+__CPROVER_ensures(__CPROVER_return_value == 0 ==> (xvu.low_st == XVL_LIVE && XU_SAME(xvu.low_closes) && XU_SAME(xvu.low_destroys) && XU_SAME(xvu.low_leaks) && XU_SAME(xvu.foreign) && \
+                                                    XU_LOW(s) == xvu_low && XU_PLUS(xv_ctx_refs, 1) && BT(s)->ssl_ctx == XV_CTX && BT(s)->server.created == 1))
+/* PO[C18] btls_server.own_credentials: the context is fetched once, for the socket's own four items as finalize_tls_conf left them (trusted CAs iff tls.auth, CRL iff tls.check_crl) */
+__CPROVER_ensures(XU_SRV_CTX_TRIED ==> (XU_PLUS(xv_ctx_get_calls, 1) && BT_CTX_FROM_OWN(s)))
+/* PO[C09] btls_server.inconsistent_policy_refused: an inconsistent policy never binds anything nor loads credentials: EINVAL (unless the address is unusable as well) */
+__CPROVER_ensures(BT_INCONSISTENT(s) ==> (__CPROVER_return_value == -1 && !XU_SRV_CTX_TRIED && !XU_SRV_BIND_TRIED && (XU_SRV_ADDR_OK ==> xv_errno == EINVAL)))
+/* the ladder: address first (a refused address consults nothing), then credentials, the bind last -- exactly one, of the address btls_to_btcp produced from local_addr; success <=> that bind succeeded */
+__CPROVER_ensures(XU_PLUS(xvu.addr_calls, 1) && xvu.addr_in == local_addr && (!XU_SRV_ADDR_OK ==> (__CPROVER_return_value == -1 && BT_NO_LOOKUPS && !XU_SRV_CTX_TRIED && !XU_SRV_BIND_TRIED)))
+__CPROVER_ensures(XU_SRV_BIND_TRIED ==> (XU_PLUS(xvu.low_servers, 1) && xvu.low_server_addr_ok && XU_SRV_CTX_TRIED && XU_SRV_ADDR_OK))
+__CPROVER_ensures((__CPROVER_return_value == 0) == (XU_SRV_BIND_TRIED && xvu.low_server_rv == 0))
+;
+
 #include "contracts/end.h"
 #endif
